@@ -193,6 +193,10 @@ func c14Load(cl *simCluster, sp *simProxy) string {
 	}
 	cl.mu.Unlock()
 	c14LoadSeq++
+	// the table is refreshed every couple of milliseconds while the load runs
+	of, om := redis.VerifSetSlotsRefresh(2*time.Millisecond, time.Millisecond)
+	defer redis.VerifSetSlotsRefresh(of, om)
+	time.Sleep(60 * time.Millisecond) // the refresh loop picks the new timers up at its next turn (40 ms at most)
 	var wg sync.WaitGroup
 	bad := int32(0)
 	for w := 0; w < 4; w++ {
